@@ -327,3 +327,12 @@ Proof.
   split; [repeat constructor; cbn; intuition discriminate|].
   exists 1%nat, {| rst := PENDING; rown := Some 5%nat; rts := 0 |}. vm_compute. intuition.
 Qed.
+
+(* the parent reports on every loop iteration: a live child's heartbeat is never older than one loop period, so any
+   death time-out longer than the loop period never takes a live child's work — whatever the gate interval *)
+Lemma live_child_fresh_l : forall loop_period gate_interval timeout : Z,
+  (loop_period < timeout)%Z -> (child_hb_max_age true loop_period gate_interval < timeout)%Z.
+Proof. intros lp g t H. exact H. Qed.
+Lemma gated_report_stale : exists loop_period gate_interval timeout : Z,
+  (loop_period < timeout)%Z /\ ~ (child_hb_max_age false loop_period gate_interval < timeout)%Z.
+Proof. exists 1%Z, 30%Z, 12%Z. split; [reflexivity|]. vm_compute. intros H. discriminate H. Qed.
